@@ -54,6 +54,7 @@ func init() {
 		}
 		if fn := x.Func(f, "Set", "IsSubset"); fn != nil {
 			b := fn.Body.List
+			b = mergeElseIf(b) // `if A { return true }; if B { return false }` reads as `… else if B …`
 			if x.wantStmts("IsSubset", b, "*", "for item := range s { if !t.Has(item) { return false } }", "return true") {
 				g := b[0].(*ast.IfStmt)
 				cond("isSubsetEmpty", "IsSubset", g.Cond)
